@@ -14,4 +14,34 @@ def run(ctx):
 
 
 def extra(ctx, res):
+    import ast
+
+    from .. import rules_container as RC
+    from ..effects import Effects, check_pure
+    from ..model import AnalysisError, loc, norm, walk_no_nested
+    from ._clients import DEGREE, check_filter_clients
+    from .c03 import check_uniq
+
+    cls = "MultiplexHypergraph"
+    res.rules.update({
+        "P-LAYERREG": "every record creation registers its layer",
+        "K-UNIQ": "the no-repeats guard of a weighted batch ranges over (edge, layer) records, not over node tuples",
+        "F-LAYERS": "edge_overlap ranges over all registered layers and accumulates the weight of the same hyperedge in each",
+    })
+    RC.check_layer_registry(ctx, res)
+    check_uniq(ctx, res, cls, "LAYER")
+    eff = Effects(ctx)
+    check_pure(ctx, eff, res, "overlap.edge_overlap", roots=("h",))
+    # edge_overlap: loop over get_existing_layers(), accumulate get_weight(edge, layer)
+    v = ctx.view("overlap.edge_overlap")
+    loops = [n for n in walk_no_nested(v.fi.node) if isinstance(n, ast.For) and isinstance(n.iter, ast.Call) and isinstance(n.iter.func, ast.Attribute) and n.iter.func.attr == "get_existing_layers"]
+    res.check(bool(loops), "F-LAYERS", v.fi.short, "for layer in h.get_existing_layers()", "loop", "edge_overlap does not range over the registered layers", loc(v.fi, v.fi.node))
+    for lp in loops:
+        tgt = lp.target.id if isinstance(lp.target, ast.Name) else None
+        calls = [c for c in ast.walk(lp) if isinstance(c, ast.Call) and isinstance(c.func, ast.Attribute) and c.func.attr == "get_weight"]
+        okc = [c for c in calls if len(c.args) >= 2 and isinstance(c.args[1], ast.Name) and c.args[1].id == tgt]
+        res.check(bool(okc), "F-LAYERS", v.fi.short, norm(lp.iter), "weight-of-layer", "the weight is not looked up for the layer of the current iteration", loc(v.fi, lp))
+        augs = [a for a in ast.walk(lp) if isinstance(a, ast.AugAssign) and isinstance(a.op, ast.Add)]
+        res.check(bool(augs), "F-LAYERS", v.fi.short, norm(lp.iter), "accumulate", "per-layer weights are not summed", loc(v.fi, lp))
+    check_filter_clients(ctx, res, DEGREE[:2])
     return res
